@@ -20,11 +20,13 @@ Pending == [pending |-> TRUE]
 (* ---------------- utmp ---------------------------------------------------- *)
 UTypes == {"USER", "DEAD", "LOGIN", "BOOT"}
 Fills == {"empty", "short", "full"}            \* full = field filled to its width, no terminator
-HostFills == Fills \cup {"colon0", "colon00"}
+\* "colon01" = ":0.1", "colon0s" = ":0:S.0" (screen): hosts that merely BEGIN like the two local displays
+HostFills == Fills \cup {"colon0", "colon00", "colon01", "colon0s"}
 Width == [user |-> 32, line |-> 32, host |-> 256]
 
 \* length of the decoded string for a fill class
-FieldLen(f, fill) == IF fill = "empty" THEN 0 ELSE IF fill = "full" THEN Width[f] ELSE 5
+FieldLen(f, fill) == IF fill = "empty" THEN 0 ELSE IF fill = "full" THEN Width[f]
+                     ELSE IF fill = "colon01" THEN 4 ELSE IF fill = "colon0s" THEN 6 ELSE 5
 
 UtmpRecs == [type : UTypes, user : Fills, line : Fills, host : HostFills]
 UtmpRow(r) == [userlen |-> FieldLen("user", r.user),
@@ -64,7 +66,8 @@ MountOut(i) == IF \E j \in 1..Len(i.ents) : i.ents[j].opts = "badutf8" THEN [cla
 PidFns == {"proc_ioprio_get", "proc_cpu_affinity_get", "getpriority", "check_pid_range"}
 PidArgs == {"minus2p63", "minus1", "zero", "one", "2p31m1", "2p31", "2p63", "2p64", "str", "none", "float", "noargs"}
 NameFns == {"net_if_mtu", "net_if_flags", "net_if_is_running", "net_if_duplex_speed", "disk_partitions"}
-NameArgs == {"empty", "len15", "len16", "len17", "len4096", "nul_inside", "int", "bytes", "noargs"}
+\* "percent": a name made of printf conversions (the extension runs with its debug messages on)
+NameArgs == {"empty", "len15", "len16", "len17", "len4096", "nul_inside", "int", "bytes", "noargs", "percent"}
 SetFns == {"proc_cpu_affinity_set"}
 SetArgs == {"empty_list", "neg", "huge", "dups", "2p40", "strs", "not_seq", "tuple", "generator",
             "cpu63", "cpu64", "cpu300", "cpu1023", "cpu1024", "many"}
